@@ -120,6 +120,7 @@ func lemmaInflowConservation(f *inflow, n uint32, a, b uint16) (ok bool) {
 //@   trusted
 //@   ensures 0 <= n && n <= len(d)
 //@   ensures err == nil ==> n == len(d)
+//@   ensures err != nil ==> n == 0
 //@   modifies *p
 //@ func (*pipe).CloseWithError(p, err)
 //@   trusted
@@ -245,4 +246,23 @@ func lemmaInflowConservation(f *inflow, n uint32, a, b uint16) (ok bool) {
 //@   ghost removed += $r0 after call Read
 //@   ensures  credit(b.cs.cc.inflow.avail, b.cs.cc.inflow.unsent) == old(credit(b.cs.cc.inflow.avail, b.cs.cc.inflow.unsent)) + ghost(removed)
 //@   ensures  inflowOK(b.cs.cc.inflow.avail, b.cs.cc.inflow.unsent)
+//@   noframe
+
+// clientConnReadLoop.processData: the client-side counterpart of serverConn.processData.
+// Unless the connection is being torn down with a connection error, connection-level credit is
+// conserved (taken credit is refunded at once or equals the bytes accepted into the response
+// buffer); body bytes are buffered only after both windows admitted the frame; a FLOW_CONTROL
+// connection error is raised only when a window is too small.
+//
+//@ func (*clientConnReadLoop).processData(rl, f) (err)
+//@   requires rl != nil && rl.cc != nil && f != nil
+//@   requires inflowOK(rl.cc.inflow.avail, rl.cc.inflow.unsent)
+//@   requires int64(f.Length) + credit(rl.cc.inflow.avail, rl.cc.inflow.unsent) <= 1<<31-1
+//@   ghost kept += $r0 after call Write
+//@   assert at call Write: int64(f.Length) <= int64(old(rl.cc.inflow.avail))
+//@   assert at call Write: int64(f.Length) <= int64(old(cs.inflow.avail))
+//@   ensures  !hastype(err, ConnectionError) ==> credit(rl.cc.inflow.avail, rl.cc.inflow.unsent) == old(credit(rl.cc.inflow.avail, rl.cc.inflow.unsent)) - ghost(kept)
+//@   ensures  !hastype(err, ConnectionError) ==> inflowOK(rl.cc.inflow.avail, rl.cc.inflow.unsent)
+//@   ensures  (hastype(err, ConnectionError) && err.(ConnectionError) == ConnectionError(ErrCodeFlowControl)) ==> (int64(f.Length) > int64(old(rl.cc.inflow.avail)) || int64(f.Length) > int64(old(rl.cc.streams[f.StreamID].inflow.avail)))
+//@   ensures  int64(f.Length) > int64(old(rl.cc.inflow.avail)) ==> ghost(kept) == 0
 //@   noframe
